@@ -907,6 +907,21 @@ fn gen_c10(out: &mut Out, rng: &mut Rng, thorough: bool) {
         let o = Opts { ecl: Some(rng.below(4)), mode: None, version: None, mask: None };
         out.job(move || build_line(&inp, o));
     }
+    // long runs of one character, up to far beyond any capacity, each in a child process (an abort is an outcome)
+    {
+        let lens: &[usize] = if thorough {
+            &[2953, 4296, 7089, 7090, 8000, 10000, 12000, 16383, 16384, 20000, 21100, 23000, 25000, 28000, 31328, 31329, 31330, 40000, 65535, 65536, 100000, 200000]
+        } else {
+            &[7089, 7090, 12000, 16384, 21100, 25000, 31329, 31330, 65536, 100000]
+        };
+        for &len in lens {
+            for (i, run) in [b'7', b'A', b'a', 0u8].into_iter().enumerate() {
+                let tail = match (len + i) % 3 { 0 => None, 1 => Some(b'x'), _ => Some(b'Z') };
+                let ecl = if (len + i) % 2 == 0 { None } else { Some(0) };
+                out.job(move || buildbig_line(run, len, tail, ecl));
+            }
+        }
+    }
     // malformed stream
     for _ in 0..(if thorough { 600 } else { 80 }) {
         let len = rng.range(1, 300);
@@ -919,6 +934,77 @@ fn gen_c10(out: &mut Out, rng: &mut Rng, thorough: bool) {
         }
         let o = Opts { ecl: Some(rng.below(4)), mode: Some(forced), version: None, mask: Some(rng.below(8)) };
         out.job(move || buildx_line(&inp, o));
+    }
+}
+
+/// `buildbig <run byte hex> <len> <tail byte hex|-> <ecl|-> => <outcome>`: a build of `len` copies of one byte (plus an
+/// optional different last byte) with everything else automatic, made in a CHILD process on a thread with Rust's default
+/// 2 MiB stack — so that a process abort (stack exhaustion in a recursive scan, an allocation failure) or a hang is
+/// observed as an outcome instead of killing the harness. Inputs far beyond the version-40 capacity must still come back
+/// as the data-too-big error.
+pub fn buildbig_line(run: u8, len: usize, tail: Option<u8>, ecl: Option<usize>) -> String {
+    let head = format!("buildbig {:02x} {} {} {} => ", run, len, tail.map_or("-".to_string(), |t| format!("{:02x}", t)), opt(ecl));
+    let exe = std::env::current_exe().unwrap();
+    let mine = buildbig_with(&exe, &head, run, len, tail, ecl);
+    // the same build in the UNOPTIMISED binary (`/verif/harness/target-o0`, what a plain `cargo build` produces): its result
+    // is reported instead when it differs (e.g. the child died of stack exhaustion there)
+    let o0 = std::path::Path::new("/verif/harness/target-o0/debug/fqv");
+    if o0.exists() && exe != o0 {
+        let other = buildbig_with(o0, &head, run, len, tail, ecl);
+        if other != mine {
+            let res = other[head.len()..].chars().take(60).collect::<String>().replace(' ', "-");
+            return format!("{}trap in-the-unoptimised-build:{}", head, res);
+        }
+    }
+    mine
+}
+fn buildbig_with(exe: &std::path::Path, head: &str, run: u8, len: usize, tail: Option<u8>, ecl: Option<usize>) -> String {
+    let child = std::process::Command::new(exe)
+        .args(["build-child", &format!("{:02x}", run), &len.to_string(), &tail.map_or("-".to_string(), |t| format!("{:02x}", t)), &opt(ecl)])
+        .stdout(std::process::Stdio::piped())
+        .stderr(std::process::Stdio::null())
+        .spawn();
+    let mut child = match child {
+        Ok(c) => c,
+        Err(_) => return format!("{}nochild", head),
+    };
+    // read the outcome on a helper thread so that a hung child can be killed after a minute
+    let mut so = child.stdout.take().unwrap();
+    let reader = std::thread::spawn(move || {
+        let mut s = String::new();
+        let _ = std::io::Read::read_to_string(&mut so, &mut s);
+        s
+    });
+    let t0 = std::time::Instant::now();
+    let status = loop {
+        match child.try_wait() {
+            Ok(Some(st)) => break Some(st),
+            Ok(None) if t0.elapsed().as_secs() < 60 => std::thread::sleep(std::time::Duration::from_millis(5)),
+            _ => {
+                let _ = child.kill();
+                let _ = child.wait();
+                break None;
+            }
+        }
+    };
+    let text = reader.join().unwrap_or_default();
+    match status {
+        Some(st) if st.success() && !text.trim().is_empty() => format!("{}{}", head, text.trim()),
+        Some(st) => format!("{}trap process-died-{}", head, st.to_string().replace(' ', "-")),
+        None => format!("{}trap no-result-within-60s", head),
+    }
+}
+pub fn build_child(run: u8, len: usize, tail: Option<u8>, ecl: Option<usize>) {
+    let t = std::thread::spawn(move || {
+        let mut inp = vec![run; len];
+        if let Some(t) = tail {
+            inp.push(t);
+        }
+        outcome_full(&build(&inp, Opts { ecl, mode: None, version: None, mask: None }))
+    });
+    match t.join() {
+        Ok(s) => println!("{}", s),
+        Err(_) => println!("trap thread"),
     }
 }
 
